@@ -28,7 +28,10 @@ RULE = ("exhaustive part: see exhaustive_scope. Sampled part: a case = one field
         "unsigned x shift_step 0..8, float signed/unsigned, Decimal with decimal_places 1..4, DATETIME) + a boundary-biased "
         "multiset of 1..30 values (min, max, 0, -0.0, denormals, infinities, microseconds, datetime.min/max, neighbours of "
         "bucket boundaries) indexed into a real index (1 or 2 segments) + ~24 range queries with bounds drawn from the "
-        "values, their neighbours and the domain extremes (closed/open/half-open/unbounded) + sort + out-of-domain probes. "
+        "values, their neighbours and the domain extremes (closed/open/half-open/unbounded; NumericRange/DateRange objects via "
+        "search() and docs(), and the query language) + point queries + ~10 tiered_ranges calls checked as a pure function on the wide "
+        "domain + sort (column and term based) + out-of-domain probes at indexing and query time; 20% of the cases have "
+        "multi-valued documents. "
         "A searched range is non-trivial when its expected result is neither empty nor every document; distinct = distinct "
         "(field configuration, flags, None-pattern, bound classes, result-size class).")
 ASSUMPTIONS = [
@@ -38,11 +41,19 @@ ASSUMPTIONS = [
     "says further digits are truncated), as values and as range bounds",
     "an out-of-domain range bound at query time may either raise (ValueError/OverflowError/QueryParserError/QueryError) or "
     "be answered exactly as the mathematical interval; it must not match anything else (no wrapping)",
-    "an out-of-domain value at indexing time must raise (any exception) and leave no trace in the index",
+    "an out-of-domain value at indexing time must raise (any exception; field.is_valid() may answer False or raise) and "
+    "leave no document in the index",
     "time zones are out of scope: datetimes are naive",
     "sortedby: only the order of documents with different values is judged (ties may come in any order); all documents "
     "have a value (missing values belong to C14)",
-    "the DATETIME string syntax and the date parser plug-in are observed only for well-formed full-precision strings",
+    "the DATETIME text syntax is only probed with impossible calendar fields (must be rejected at indexing time); date "
+    "range strings in the query language and the date parser plug-in (ambiguous dates, floor/ceil) belong to C16",
+    "the byte layout of the terms is not prescribed: only from_bytes(to_bytes(x)) == x, order of the full-precision bytes, and "
+    "weak monotonicity of every lower-precision level are demanded",
+    "query-language paths (n:[a TO b], n:{a TO b}, n:[a TO], n:[TO b], n:v) are used for ints, Decimals and floats whose repr has "
+    "no exponent; an out-of-domain bound there may also be answered with a NullQuery",
+    "multi-valued documents (a list of numbers in one field) match when any of their values is inside; sorting is only judged "
+    "on single-valued cases",
 ]
 SHARDS = {"quick": 4, "thorough": 16}
 BUDGET_S = {"quick": 80, "thorough": 800}
@@ -331,7 +342,9 @@ def ood_values(cfg, rng):
         if not cfg.signed:
             out += [("-1.0", -1.0), ("-denormal", -DENORM), ("-inf", float("-inf"))]
         return out
-    return []
+    # datetime: impossible calendar fields in the documented YYYYMMDDhhmmss text form, and non-dates
+    return [("month-13", u"20101301"), ("feb-30", u"20100230"), ("hour-25", u"2010010125"), ("minute-60", u"201001012360"),
+            ("year-0", u"00000101"), ("junk-text", u"abcd"), ("not-a-date", 12.5)]
 
 
 # ----------------------------------------------------------------------
@@ -426,12 +439,8 @@ def codec_checks(ctx, cfg, field, cvals, w, rng):
         ctx.fail("codec", "to_bytes(%s):exc:%s" % (_ck(cfg), type(e).__name__), w, repr(e))
         return False
     fbits = 64 if cfg.kind in ("float", "datetime") else cfg.bits
-    width = 1 + fbits // 8
     for v, b in zip(cvals, enc):
         ctx.count("codec.values")
-        if len(b) != width or b[0:1] != b"\x00":
-            ctx.fail("codec", "to_bytes(%s):shape" % _ck(cfg), dict(w, value=v), "bytes %r" % b)
-            return False
         try:
             back = field.from_bytes(b)
         except Exception as e:  # noqa
@@ -440,12 +449,6 @@ def codec_checks(ctx, cfg, field, cvals, w, rng):
         if not (back == v) or type(back) is not type(v):
             ctx.fail("codec", "from_bytes(to_bytes(x))!=x(%s)" % _ck(cfg), dict(w, value=v), "got %r" % (back,))
             return False
-        if cfg.kind != "float":
-            # the unique order-preserving bijection onto [0, 2^bits): big-endian bytes of (v - min)
-            if int.from_bytes(b[1:], "big") != model_sortable(cfg, v):
-                ctx.fail("codec", "to_bytes(%s):not-the-position-in-the-domain" % _ck(cfg), dict(w, value=v),
-                         "bytes %r, position %d" % (b, model_sortable(cfg, v)))
-                return False
     for i in range(len(cvals)):
         j = rng.randrange(len(cvals))
         a, b = cvals[i], cvals[j]
@@ -456,15 +459,12 @@ def codec_checks(ctx, cfg, field, cvals, w, rng):
         elif (a < b) != (enc[i] < enc[j]):
             ctx.fail("codec", "order(%s):bytes-order!=value-order" % _ck(cfg), dict(w, a=a, b=b), "%r vs %r" % (enc[i], enc[j]))
             return False
-        # every lower-precision level is weakly monotone and is a prefix of the full-precision number
+        # every lower-precision level is weakly monotone
         if cfg.step:
             sh = rng.randrange(0, fbits, cfg.step)
             ea, eb = field.to_bytes(a, sh), field.to_bytes(b, sh)
             if ea[0] != sh or eb[0] != sh or (a < b and ea[1:] > eb[1:]) or (a > b and ea[1:] < eb[1:]):
                 ctx.fail("codec", "order(%s):shifted-level-not-monotone" % _ck(cfg), dict(w, a=a, b=b, shift=sh))
-                return False
-            if int.from_bytes(ea[1:], "big") != int.from_bytes(enc[i][1:], "big") >> sh:
-                ctx.fail("codec", "to_bytes(%s,shift):not-the-high-bits" % _ck(cfg), dict(w, a=a, shift=sh))
                 return False
     if cfg.kind in ("int", "float"):
         nt = int if cfg.kind == "int" else float
@@ -695,6 +695,23 @@ def sampled_case(ctx, rng, idx):
                 ctx.fail("range", "Term(%s%s):%s" % (_ck(cfg), mv, "too-many" if got - may else "too-few"), dict(pw, got_ids=sorted(got)))
                 break
 
+        # ---- 2c. point queries through the query language
+        for v in rng.sample(vals, min(2, len(vals))):
+            t = qtext(cfg, v)
+            if t is None or (cfg.kind == "float" and v == 0):
+                continue
+            ctx.count("point.parsed")
+            must = set(i for i, d in enumerate(docs) if any(x == v for x in d))
+            pw = dict(w, query_string="n:" + t, expected_ids=sorted(must))
+            try:
+                got = set(h["id"] for h in s.search(qp.parse("n:" + t), limit=None))
+            except Exception as e:  # noqa
+                ctx.fail("range", "parsed-term(%s):exc:%s@%s" % (_ck(cfg), type(e).__name__, _wsite(e)), pw, repr(e))
+                break
+            if got != must:
+                ctx.fail("range", "parsed-term(%s%s):%s" % (_ck(cfg), mv, "too-many" if got - must else "too-few"), dict(pw, got_ids=sorted(got)))
+                break
+
         # ---- 3. sort order (single-valued documents only)
         for reverse in (False, True):
             if multi:
@@ -717,8 +734,8 @@ def sampled_case(ctx, rng, idx):
 
         # ---- 4b. out-of-domain at query time
         for label, bad in ood_values(cfg, rng):
-            if bad != bad:
-                continue
+            if bad != bad or cfg.kind == "datetime":
+                continue   # (a DATETIME bound that is not a datetime has no agreed reading; index time only)
             ctx.count("ood.query")
             for side in ("start", "end"):
                 stt, en = (bad, None) if side == "start" else (None, bad)
@@ -761,8 +778,9 @@ def sampled_case(ctx, rng, idx):
         try:
             if field.is_valid(bad):
                 ctx.fail("domain", "is_valid(%s,%s):true" % (_ck(cfg), label), bw)
-        except Exception as e:  # noqa - is_valid answers with a bool
-            ctx.fail("domain", "is_valid(%s,%s):exc:%s@%s" % (_ck(cfg), label, type(e).__name__, _wsite(e)), bw, repr(e))
+        except Exception as e:  # noqa - raising is also a rejection (DATETIME.is_valid raises TimeError for impossible dates)
+            _wsite(e)
+            ctx.count("ood.is_valid.raised")
         wr = ix.writer()
         try:
             wr.add_document(id=1000, n=bad)
